@@ -218,42 +218,46 @@ def build_property(pid, extra_targets=()):
     }
 
 
-def build_extraction():
-    """build/velaverif from coq/extract/Extract.v + ocaml/driver.ml. Returns (ok, log)."""
+def build_extraction(name="velamodel"):
+    """build/<name> from coq/extract/Extract<Name>.v (which must write extract/<name>.ml and export a
+    function `run : Z -> list Z -> list Z`) + ocaml/driver.ml. `velamodel` <- extract/Extract.v.
+    Returns (ok, log)."""
+    vfile = "extract/Extract.v" if name == "velamodel" else "extract/Extract%s.v" % (name[0].upper() + name[1:])
     with Lock():
         regenerate()
-        ok, log, _, _ = coq_make(["extract/Extract.vo"])
+        ok, log, _, _ = coq_make([vfile + "o"])
         if not ok:
             return False, log
-        ml = os.path.join(BUILD, "ml")
+        ml = os.path.join(BUILD, "ml_" + name)
         os.makedirs(ml, exist_ok=True)
-        src_ml = os.path.join(COQ, "extract", "velamodel.ml")
+        src_ml = os.path.join(COQ, "extract", name + ".ml")
         if not os.path.exists(src_ml):
-            return False, log + "\nno extracted velamodel.ml"
-        exe = os.path.join(BUILD, "velaverif")
+            return False, log + "\nno extracted %s.ml" % name
+        exe = os.path.join(BUILD, name if name != "velamodel" else "velaverif")
         stamp = os.path.join(ml, "stamp")
         h = hashlib.sha256()
         for f in (src_ml, src_ml + "i", os.path.join(ROOT, "ocaml", "driver.ml")):
             h.update(open(f, "rb").read())
         if os.path.exists(exe) and os.path.exists(stamp) and open(stamp).read() == h.hexdigest():
             return True, log
-        for f in (src_ml, src_ml + "i"):
-            subprocess.run(["cp", f, ml])
+        subprocess.run(["cp", src_ml, os.path.join(ml, "velamodel.ml")])
+        subprocess.run(["cp", src_ml + "i", os.path.join(ml, "velamodel.mli")])
         subprocess.run(["cp", os.path.join(ROOT, "ocaml", "driver.ml"), ml])
-        p = subprocess.run(["ocamlfind", "ocamlopt", "-O3", "-w", "-a", "-package", "str", "-linkpkg", "velamodel.mli", "velamodel.ml",
-                            "driver.ml", "-o", exe], cwd=ml, capture_output=True, text=True)
-        if p.returncode != 0:
-            p = subprocess.run(["ocamlfind", "ocamlopt", "-w", "-a", "-package", "str", "-linkpkg", "velamodel.mli", "velamodel.ml",
-                                "driver.ml", "-o", exe], cwd=ml, capture_output=True, text=True)
+        p = None
+        for opt in (["-O3"], []):
+            p = subprocess.run(["ocamlfind", "ocamlopt"] + opt + ["-w", "-a", "-package", "str", "-linkpkg", "velamodel.mli",
+                                "velamodel.ml", "driver.ml", "-o", exe], cwd=ml, capture_output=True, text=True)
+            if p.returncode == 0:
+                break
         if p.returncode != 0:
             return False, log + p.stdout + p.stderr
         open(stamp, "w").write(h.hexdigest())
         return True, log
 
 
-def run_model(subcmd, lines, timeout=1800):
-    """run build/velaverif <subcmd> feeding one case per line; returns list of output lines"""
-    exe = os.path.join(BUILD, "velaverif")
+def run_model(subcmd, lines, timeout=1800, exe_name="velaverif"):
+    """run build/<exe_name> <subcmd> feeding one case per line; returns list of output lines"""
+    exe = os.path.join(BUILD, exe_name)
     def unlimit():
         import resource
         try:
